@@ -50,6 +50,7 @@ def run(ctx):
     D.rule_segment_plumbing(res, "C01-R4", dm)
     D.rule_loop_typestate(res, "C01-R4", dm)  # each segment case does its part on the endpoint's entry: a first segment opens a fresh one, delivery releases it
     D.rule_first_restart(res, "C01-R4", dm)
+    D.rule_deliver_release(res, "C01-R4", dm)  # the reassembled packet is built from the stored type / buffer and is given the stored version (C05-R6, shared)
     from rules import c04
     for o in c04.run(ctx).obligations:
         if (o["rule"] == "C04-R3" and o["key"].startswith(("error-bits", "invalid-only-for-protocol-reasons", "defined-values-accepted"))) or \
